@@ -277,7 +277,8 @@ class Explorer:
         self.max_paths = max_paths
         self.max_depth = max_depth
         self.query_timeout_ms = query_timeout_ms
-        self.wall_budget_s = wall_budget_s
+        import os
+        self.wall_budget_s = wall_budget_s or float(os.environ.get("VERIF_TASK_BUDGET", "0") or 0) or None
         self.pending = []
         self.paths = 0
         self.aborted = 0
